@@ -393,6 +393,34 @@ def run(chk):
     rej("C01.rej.chunktail", pp, [("len(self._chunk_tail) - self._chunk_tail.endswith(b'\\r') > $L", True, "buffered partial chunk-size/trailer line too long")], ALL,
         "buffered partial chunk line too long", extra=[])
 
+    # ------------------------------------------------------------------ C01.strip
+    # Between the wire bytes and the lexical gates only optional whitespace (SP / HTAB) may be trimmed in strict mode:
+    # a bare .strip() / .rstrip() also removes CR, LF, VT, FF and so launders bytes the gates must see.
+    n_strip = 0
+    for q in ("HeadersParser.parse_headers", "HttpParser.parse_headers", "HttpRequestParser.parse_message", "HttpRequestParser._is_chunked_te", "HttpParser.feed_data", "HttpPayloadParser.feed_data"):
+        f = repo.func(MOD, q)
+        for c in prog.calls_in(f.node):
+            if not (isinstance(c.func, ast.Attribute) and c.func.attr in ("strip", "rstrip", "lstrip")):
+                continue
+            n_strip += 1
+            lax_only = PC.has_lit(PC.pc(c), "self._lax", True) is not None or PC.has_lit(PC.pc(c, raw=True), "SEP == b'\\n'", True) is not None
+            if not c.args:
+                if lax_only:
+                    chk.ok("C01.strip", c, f"{q}: bare `{K.short(c, 30)}` only in lax mode")
+                else:
+                    chk.violation("C01.strip", c, K.short(c), "explicit argument b' \\t'", f"{q}: a bare {c.func.attr}() removes CR, LF, VT and FF as well as OWS: a field value / token ending in such a byte is silently cleaned before the control-character and framing checks see it")
+                continue
+            try:
+                arg = folder.eval(mod, c.args[0])
+            except NotConst:
+                arg = None
+            chars = set(arg.encode() if isinstance(arg, str) else arg) if isinstance(arg, (str, bytes)) else None
+            if chars is not None and (chars <= {32, 9} or (chars == {13} and lax_only)):
+                chk.ok("C01.strip", c, f"{q}: `{K.short(c, 30)}` trims only {sorted(chars)}")
+            else:
+                chk.violation("C01.strip", c, K.short(c), "trim set within {SP, HTAB}", f"{q}: trims {sorted(chars) if chars is not None else 'a non-constant set'}: more than optional whitespace is removed before the lexical checks")
+    chk.expect_count("C01.strip", n_strip, 6, "strip calls on wire-derived text in the strict parsing path")
+
     # ------------------------------------------------------------------ C01.strictmode
     lax = repo.class_attr(RP, "lax")
     try:
